@@ -660,7 +660,10 @@ fn oracle(out: &mut Out, c: &Case, obs: &[StepObs]) {
                     sessions += 1;
                     will_since_session = false;
                     session_open = true;
-                    if !coverage_done {
+                    // "each time the host application comes online it subscribes to filters covering its
+                    // configured namespace and its own STATE topic": every session, not only the first
+                    // (a clean session loses its subscriptions with the connection)
+                    {
                         coverage_done = true;
                         for t in namespace_samples(&c.cfg) {
                             if !fs.iter().any(|f| mqtt_match(f, &t)) {
